@@ -164,9 +164,18 @@ def sites(d):
             for ci, _ in enumerate(x["conns"])]
 
 
+def portless_inst_sites(d):
+    """(module, instance, None) of the instances whose target has no port of any kind: nothing to connect, so no connection site"""
+    reach = reachable(d)
+    return [(mi, ii, None) for mi, md in enumerate(d["mods"]) if mi in reach for ii, x in enumerate(md["insts"])
+            if btarget_ports(d, x["of"]) == ([], [])]
+
+
 def site_kind(d, s):
     mi, ii, ci = s
     x = d["mods"][mi]["insts"][ii]
+    if ci is None:
+        return "portless-target" + ("@array" if x["n"] > 0 else "")
     c = x["conns"][ci][1]
     k = c[0]
     if k == "x":
@@ -340,9 +349,13 @@ def mb_missing(r, d, s):
 
 def mb_extra(r, d, s):
     """a Bundle / anonymous Bundle / Signal connected to a port that does not exist"""
-    md, x, c, w, k = _ctx(d, s)
-    if k is None and not x["pair"] and c[1][0] == "x" and r.random() < 0.7:
-        return None          # plain scalar sites are the main stream's business
+    if s[2] is None:         # an instance of a target without any port: ANY connection is one to a port that does not exist
+        md = d["mods"][s[0]]; x = md["insts"][s[1]]
+        d["_tags"] = ["portless-target"]
+    else:
+        md, x, c, w, k = _ctx(d, s)
+        if k is None and not x["pair"] and c[1][0] == "x" and r.random() < 0.7:
+            return None          # plain scalar sites are the main stream's business
     bs = [b for b, _ in md["bports"] + md["binsts"]]
     u = r.random()
     if bs and u < 0.4:
